@@ -21,10 +21,12 @@ var mcParams = chainParams{B: 2, W: 2, Exp: 2}
 
 const mcWarm = 4
 
-func newMCSim(seed int64) (*chainsim.Sim, *evBook) {
+// disp: the node serves dispatches after every commit, so that the session of every height
+// is in its session cache when claims and proofs arrive.
+func newMCSim(seed int64, disp bool) (*chainsim.Sim, *evBook) {
 	s := newSim(claimsConfig(seed, mcParams))
 	for s.Height < mcWarm {
-		block(s)
+		blockD(s, disp)
 	}
 	return s, newEvBook(s)
 }
@@ -39,7 +41,7 @@ func evLeaves(ev int) int {
 
 // initState writes the projection of the warmed-up chain; TLC's design model starts from it.
 func initState(out string) {
-	s, b := newMCSim(hx.Seed())
+	s, b := newMCSim(hx.Seed(), false)
 	f, cfg := projectFocus(s, b, false)
 	votes := s.Votes(nil)
 	prop := ""
@@ -192,88 +194,55 @@ func sameFocus(want interface{}, got map[string]interface{}) (bool, string) {
 
 // replayClaims replays behaviours of MCChainClaims on the real application: a fresh chain
 // per behaviour, real evidence, the projected state compared after every step.
-func replayClaims(in string, shard, of int) {
+func replayClaims(in string, shard, of int, both bool) {
 	rep := hx.NewReport("chain-claims", "replay-claims")
 	seen := map[string]bool{}
-	repayConfirmed, boundaryClaims, skipped := 0, 0, 0
+	repayConfirmed, boundaryClaims, skipped, dispatched := 0, 0, 0, 0
 	var repaySample interface{}
 	err := hx.ReadBehaviours(in, func(idx int, beh []hx.Step) error {
 		if idx%of != shard {
 			return nil
 		}
-		rep.Behaviours++
 		raw, _ := json.Marshal(beh)
 		fresh := !seen[string(raw)]
 		seen[string(raw)] = true
-		s, b := newMCSim(hx.Seed())
-		begin(s)
-		okAll, nontrivial, hasRepay, hasBoundary := true, false, false, false
-		func() {
-			defer func() {
-				if r := recover(); r != nil {
-					okAll = false
-					rep.AddMismatch(hx.Mismatch{Behaviour: idx, Op: "exec", What: fmt.Sprintf("panic: %v", r), History: beh})
-				}
-			}()
-			for si, step := range beh {
-				rep.Steps++
-				switch step.Str("ev") {
-				case "block":
-					s.EndBlock()
-					s.Commit()
-					begin(s)
-					if int64(step.Int("h")) != s.Height {
-						hx.Fatal("behaviour %d step %d: height %d, chain at %d", idx, si, step.Int("h"), s.Height)
+		variants := []bool{len(beh) > 0 && beh[0].Bool("disp")}
+		if both {
+			variants = append(variants, !variants[0])
+		}
+		for vi, disp := range variants {
+			hist := beh
+			if vi > 0 { // the same behaviour with the dispatch dimension flipped (the specification's verdicts do not depend on it)
+				hist = make([]hx.Step, len(beh))
+				for i, e := range beh {
+					c := hx.Step{}
+					for k, v := range e {
+						c[k] = v
 					}
-					if ok, why := sameFocus(step["st"], realFocus(s, b)); !ok {
-						okAll = false
-						rep.AddMismatch(hx.Mismatch{Behaviour: idx, Step: si, Op: "BeginBlock", What: "state after BeginBlock: " + why, History: beh})
-						return
-					}
-				case "tx":
-					tx := hx.Step(step["tx"].(map[string]interface{}))
-					bz, applicable := buildTx(s, b, tx)
-					if !applicable {
-						skipped++
-						okAll = false
-						return
-					}
-					res := s.DeliverTx(bz)
-					rep.OpCounts[tx.Str("kind")+":"+step.Str("class")+"/"+step.Str("mclass")]++
-					if step.Bool("ok") != (res.Code == 0) {
-						okAll = false
-						rep.AddMismatch(hx.Mismatch{Behaviour: idx, Step: si, Op: "DeliverTx", What: "result of " + tx.Str("kind") + " (spec class " + step.Str("class") + "/" + step.Str("mclass") + ")",
-							Want: step.Bool("ok"), Got: classOf(res), History: beh})
-						return
-					}
-					if ok, why := sameFocus(step["st"], realFocus(s, b)); !ok {
-						okAll = false
-						rep.AddMismatch(hx.Mismatch{Behaviour: idx, Step: si, Op: "DeliverTx", What: "state after " + tx.Str("kind") + " (spec class " + step.Str("class") + "/" + step.Str("mclass") + "; real " + classOf(res) + "): " + why, History: beh})
-						return
-					}
-					if step.Bool("ok") || step.Str("mclass") == "replay" {
-						nontrivial = true
-					}
-					if step.Bool("repay") {
-						hasRepay = true
-					}
-					if tx.Str("kind") == "claim" && step.Bool("ok") && int64(step.Int("h")) == int64(tx.Int("sessionH"))+mcParams.W*mcParams.B {
-						hasBoundary = true
-					}
+					c["disp"] = disp
+					hist[i] = c
 				}
 			}
-		}()
-		if okAll && hasRepay {
-			repayConfirmed++
-			if repaySample == nil {
-				repaySample = beh
+			rep.Behaviours++
+			if disp {
+				dispatched++
 			}
-		}
-		if okAll && hasBoundary {
-			boundaryClaims++
-		}
-		if fresh && nontrivial {
-			rep.Nontrivial++
+			okAll, nontrivial, hasRepay, hasBoundary, notApplicable := replayOne(rep, idx, hist, disp)
+			if notApplicable {
+				skipped++
+			}
+			if okAll && hasRepay {
+				repayConfirmed++
+				if repaySample == nil {
+					repaySample = hist
+				}
+			}
+			if okAll && hasBoundary {
+				boundaryClaims++
+			}
+			if fresh && nontrivial && vi == 0 {
+				rep.Nontrivial++
+			}
 		}
 		if idx%2000 == 7 {
 			rep.AddSample(beh)
@@ -286,9 +255,73 @@ func replayClaims(in string, shard, of int) {
 	rep.Distinct = len(seen)
 	rep.Extra["repay_confirmed"] = repayConfirmed
 	rep.Extra["not_applicable"] = skipped
+	rep.Extra["dispatching_variants"] = dispatched
 	rep.Extra["boundary_claims_confirmed"] = boundaryClaims
 	if repaySample != nil {
 		rep.Extra["repay_sample"] = repaySample
 	}
 	rep.Print()
+}
+
+// replayOne replays one behaviour on a fresh chain.
+func replayOne(rep *hx.Report, idx int, beh []hx.Step, disp bool) (okAll, nontrivial, hasRepay, hasBoundary, notApplicable bool) {
+	s, b := newMCSim(hx.Seed(), disp)
+	begin(s)
+	okAll = true
+	variant := "no-dispatch"
+	if disp {
+		variant = "dispatched"
+	}
+	defer func() {
+		if r := recover(); r != nil {
+			okAll = false
+			rep.AddMismatch(hx.Mismatch{Behaviour: idx, Op: "exec", What: fmt.Sprintf("panic: %v", r), History: beh, Variant: variant})
+		}
+	}()
+	for si, step := range beh {
+		rep.Steps++
+		switch step.Str("ev") {
+		case "block":
+			s.EndBlock()
+			s.Commit()
+			if disp {
+				dispatchAll(s)
+			}
+			begin(s)
+			if int64(step.Int("h")) != s.Height {
+				hx.Fatal("behaviour %d step %d: height %d, chain at %d", idx, si, step.Int("h"), s.Height)
+			}
+			if ok, why := sameFocus(step["st"], realFocus(s, b)); !ok {
+				rep.AddMismatch(hx.Mismatch{Behaviour: idx, Step: si, Op: "BeginBlock", What: "state after BeginBlock: " + why, History: beh, Variant: variant})
+				return false, nontrivial, hasRepay, hasBoundary, false
+			}
+		case "tx":
+			tx := hx.Step(step["tx"].(map[string]interface{}))
+			bz, applicable := buildTx(s, b, tx)
+			if !applicable {
+				return false, nontrivial, hasRepay, hasBoundary, true
+			}
+			res := s.DeliverTx(bz)
+			rep.OpCounts[tx.Str("kind")+":"+step.Str("class")+"/"+step.Str("mclass")]++
+			if step.Bool("ok") != (res.Code == 0) {
+				rep.AddMismatch(hx.Mismatch{Behaviour: idx, Step: si, Op: "DeliverTx", What: "result of " + tx.Str("kind") + " (spec class " + step.Str("class") + "/" + step.Str("mclass") + ")",
+					Want: step.Bool("ok"), Got: classOf(res), History: beh, Variant: variant})
+				return false, nontrivial, hasRepay, hasBoundary, false
+			}
+			if ok, why := sameFocus(step["st"], realFocus(s, b)); !ok {
+				rep.AddMismatch(hx.Mismatch{Behaviour: idx, Step: si, Op: "DeliverTx", What: "state after " + tx.Str("kind") + " (spec class " + step.Str("class") + "/" + step.Str("mclass") + "; real " + classOf(res) + "): " + why, History: beh, Variant: variant})
+				return false, nontrivial, hasRepay, hasBoundary, false
+			}
+			if step.Bool("ok") || step.Str("mclass") == "replay" {
+				nontrivial = true
+			}
+			if step.Bool("repay") {
+				hasRepay = true
+			}
+			if tx.Str("kind") == "claim" && step.Bool("ok") && int64(step.Int("h")) == int64(tx.Int("sessionH"))+mcParams.W*mcParams.B {
+				hasBoundary = true
+			}
+		}
+	}
+	return
 }
